@@ -19,6 +19,7 @@ type LocalDB struct {
 	hasbegin     bool
 	kvs          []*types.KeyValue
 	txid         *types.Int64
+	txkvs        int // number of buffered kvs that were written before the current transaction began
 	client       queue.Client
 	api          client.QueueProtocolAPI
 	disableread  bool
@@ -84,6 +85,7 @@ func (l *LocalDB) Begin() {
 	l.keys = nil
 	l.txcache.Reset()
 	l.hasbegin = false
+	l.txkvs = len(l.kvs)
 }
 
 func (l *LocalDB) begin() {
@@ -107,6 +109,7 @@ func (l *LocalDB) save() error {
 			return err
 		}
 		l.kvs = nil
+		l.txkvs = 0
 	}
 	return nil
 }
@@ -146,6 +149,14 @@ func (l *LocalDB) Rollback() {
 		err := l.api.LocalRollback(l.txid)
 		if err != nil {
 			panic(err)
+		}
+	}
+	// the writes buffered since Begin belong to the transaction that is rolled back:
+	// they must not be handed to the chain by the next save()
+	if l.txkvs < len(l.kvs) {
+		l.kvs = l.kvs[:l.txkvs]
+		if len(l.kvs) == 0 {
+			l.kvs = nil
 		}
 	}
 	l.resetTx()
